@@ -3,6 +3,7 @@ import copy
 import os
 import warnings
 import collections
+import collections.abc
 
 from kvfile import KVFile
 
@@ -47,7 +48,7 @@ def update_counter(curr, new):
         return curr
     if curr is None:
         curr = collections.Counter()
-    if isinstance(new, str):
+    if isinstance(new, str) or not isinstance(new, collections.abc.Iterable):
         new = [new]
     if not isinstance(curr, collections.Counter):
         curr = collections.Counter(curr)
